@@ -248,7 +248,43 @@ def run_prog(W, cfg):
         W.ob(f'{tag}: retained samples unaltered', s.value, W.array([x for _, x in pairs]))
 
 
+# ------------------------------------------------------------------ the grid invariant, for every numeric dtype of the wavelengths
+def cfg_inv(tier, seed):
+    out = [{'dtype': d} for d in ('float64', 'float32', 'int64', 'int32', 'uint8', 'uint16', 'uint32', 'uint64')]
+    return out, len(out), True
+
+
+def run_inv(W, cfg):
+    """numpy dtype semantics (unsigned wrap-around of differences) are not in the symbolic model: a concrete-only obligation"""
+    R = W.lentil.radiometry
+
+    def ok():
+        import numpy as _np
+        dt = _np.dtype(cfg['dtype'])
+        for bad in ([5, 3, 9], [3, 5, 5], [9, 5, 3], [3, 9, 5], [7, 7, 7]):
+            try:
+                R.Spectrum(_np.array(bad, dtype=dt), [1.0, 2.0, 3.0])
+                return False                     # a grid that is not strictly increasing was accepted
+            except ValueError:
+                pass
+            s = R.Spectrum(_np.array([2, 4, 10], dtype=dt), [1.0, 2.0, 3.0])
+            try:
+                s.resample(_np.array(bad, dtype=dt))
+                if not _np.all(_np.diff(_np.asarray(s.wave, dtype=float)) > 0):
+                    return False
+            except ValueError:
+                pass
+            if not _np.all(_np.diff(_np.asarray(s.wave, dtype=float)) > 0) or len(s.wave) != len(s.value):
+                return False
+        good = R.Spectrum(_np.array([3, 5, 9], dtype=dt), [1.0, 2.0, 3.0])
+        return list(_np.asarray(good.wave, dtype=float)) == [3.0, 5.0, 9.0]
+    W.ob_concrete('a wavelength grid that is not strictly increasing is refused by the constructor and by resample, whatever its dtype', ok)
+    x = W.real('unused')
+    W.ob('anchor', x * 1, x)
+
+
 HARNESSES = {
+    'grid_invariant': {'configs': cfg_inv, 'run': run_inv, 'validate_paths': 1},
     'integrate': {'configs': cfg_int, 'run': run_int, 'small': 600},
     'bin': {'configs': cfg_bin, 'run': run_bin, 'small': 8},
     'resize_programs': {'configs': cfg_prog, 'run': run_prog, 'small': 600, 'max_paths': 40000},
